@@ -13,8 +13,8 @@ import (
 
 	"cosmossdk.io/collections"
 	sdkmath "cosmossdk.io/math"
-	cryptocodec "github.com/cosmos/cosmos-sdk/crypto/codec"
 	cmtcrypto "github.com/cometbft/cometbft/crypto"
+	cryptocodec "github.com/cosmos/cosmos-sdk/crypto/codec"
 	cryptotypes "github.com/cosmos/cosmos-sdk/crypto/types"
 	sdk "github.com/cosmos/cosmos-sdk/types"
 
